@@ -57,6 +57,21 @@ def digests(n, reverse=False, only=None):
                 res = runner.run_one(drivers[name], cfg, seed=s, timeout=300)
                 d[str(s)] = res.digest() + ':' + str(len(res.violations))
             out[full] = d
+            # variants forcing the rarer modes of a driver (eg. C17: pre-history + fine yield points)
+            for vi, over in enumerate(getattr(mod, 'SELFTEST_VARIANTS', {}).get(name, [])):
+                vfull = '{0}#{1}'.format(full, vi)
+                if only and vfull not in only:
+                    continue
+                vcfg = dict(cfg)
+                vcfg.update(over)
+                d = {}
+                vseeds = sorted(seeds)[:max(2, n // 2)]
+                if reverse:
+                    vseeds.reverse()
+                for s in vseeds:
+                    res = runner.run_one(drivers[name], vcfg, seed=s, timeout=300)
+                    d[str(s)] = res.digest() + ':' + str(len(res.violations))
+                out[vfull] = d
     return out
 
 
